@@ -26,7 +26,8 @@ from symx.values import zreal
 BOUNDS = {
     "quick": "8 scheme families with symbolic matrices (index dependent / independent, several megacomplexes with shared labels "
     "and megacomplex scales, dataset scale, full model, 1-3 datasets unlinked / linked), all clps, matrix entries and "
-    "parameters symbolic, <= 3x3 points",
+    "parameters symbolic, <= 3x3 points; 3 builtin coherent-artifact configurations (own / IRF width, dispersed IRF) against "
+    "C07's closed form",
     "thorough": "plus seeded random schemes from the C02 generator without constraints / relations / weights",
 }
 OUTSIDE = ("return to the optimum from perturbed start values (convergence of an iterative float optimiser); reproducibility of "
